@@ -187,6 +187,8 @@ class Check:
         """cpu_limit: seconds of CPU TIME the driver may use (RLIMIT_CPU); exceeding it kills the
         process with a signal, which raises CpuLimit - unlike the wall-clock `timeout` (a tool
         error) this does not depend on how busy the machine is."""
+        # never shorter than the in-driver hang monitor needs (600 s of CPU time, longer on a busy machine)
+        timeout = max(timeout, 2400)
         pre = None
         if cpu_limit:
             import resource
